@@ -442,6 +442,8 @@ func verifLemmaMaxBodyTight(c *channelInstance, m *Message, chunkSize int, chunk
 //@ func (*SecureChannel).handleOpenSecureChannelRequest
 //@   props C13
 //@   assumed
+//@   requires [C13:server-only] s.kind == server
+//@   requires [C13:opening-instance] s.openingInstance != nil
 //@   assigns allbut MessageChunk MessageHeader SequenceHeader Header uacp.Conn uacp.Acknowledge SecureChannel.chunks SecureChannel.c SecureChannel.cfg []*MessageChunk map[uint32][]*MessageChunk
 
 //@ func github.com/gopcua/opcua/ua.Response.Header
@@ -467,6 +469,8 @@ func verifLemmaMaxBodyTight(c *channelInstance, m *Message, chunkSize int, chunk
 //@   loop 0 invariant storedOK(s)
 //@   loop 0 invariant chunkTableOK(s)
 //@   loop 0 invariant s.openingInstance != nil ==> instOK(s.openingInstance)
+//@   requires [server-channel] s.kind == server ==> s.openingInstance != nil
+//@   loop 0 invariant [server-channel] s.kind == server ==> s.openingInstance != nil
 //@   requires [limit-representable] s.c.ack.MaxChunkCount < 4294967295
 //@   requires [C13:backlog-bounded] forall k uint32 :: { in(k, s.chunks) } in(k, s.chunks) ==> len(s.chunks[k]) <= int(s.c.ack.MaxChunkCount)
 //@   ensures [C13:backlog-bounded] forall k uint32 :: { in(k, s.chunks) } in(k, s.chunks) ==> len(s.chunks[k]) <= int(s.c.ack.MaxChunkCount)
